@@ -184,18 +184,85 @@ def run_file(desc, modes, agg, kind_ids=None):
         oc, v = fc.check(inserts)
         short = {"file": desc.get("name") or desc.get("id"), "lang": lang, "inserts": [[b, k] for b, m, t, k in inserts][:6], "n": len(inserts)}
         agg.case(short, bool(fc.ms0) and oc != "not-token-safe", oc, sample=len(inserts) == 2)
+        agg.transitions += 1
         if oc == "not-token-safe":
             agg.extra["skipped_not_token_safe"] += 1
         if v:
             agg.violation(v[0], v[1], dict(desc, inserts=[[b, m, t, k] for b, m, t, k in inserts]), v[2])
 
 
+PAYLOADS = ["@code x = 1; @endcode @param[in] p [in out]", "-*- coding: latin-1 -*- vim: set ft=objc :", "<?php echo 1; ?> <%= x %>",
+            "#include <objc/objc.h> #import \"a.h\" @interface X @end", "#!/usr/bin/env perl", "TODO(x): {{{ }}} ]]> */ /* <!-- -->"]
+
+
+def eval_files_on_disk(lang, ext):
+    """the same metamorphic relation at FILE level: originals and commented variants are written to one real tree and
+    scanned with scan_path (language detection, decoding and per-file bookkeeping included). The inserted comments carry text
+    that content-sniffing heuristics react to."""
+    from pathlib import Path
+
+    from codelimit.common.Scanner import scan_path
+    from mc import harness
+
+    out = []
+    sources = {f"gen_{k.replace('-', '_')}": canon.render(v)[0] for k, v in programs.skeletons(lang).items() if k in ("two", "func-global-func", "nested-middle")}
+    files, plan = {}, []
+    lead = "#" if lang == "Python" else "//"
+    for name, text in sources.items():
+        fc = FileCtx(lang, text)
+        files[f"orig/{name}.{ext}"] = fc.text
+        variants = []
+        for pi, payload in enumerate(PAYLOADS):
+            if "*/" in payload and lang != "Python":
+                payload_line = payload.replace("*/", "* /")
+            else:
+                payload_line = payload
+            line = f"{lead} {payload_line}"
+            variants.append((f"top{pi}", [(0, "line", line, "payload")]))
+            variants.append((f"all{pi}", [(b, "line", line, "payload") for b in sorted(fc.line_safe)]))
+            if lang != "Python":
+                block = "/* " + payload_line + " */"
+                variants.append((f"blk{pi}", [(b, "line", block, "payload-block") for b in sorted(fc.line_safe)][:3]))
+        for vid, inserts in variants:
+            text2, new_lines = apply(fc.lines, inserts)
+            if code_stream(lang, text2) != fc.stream0:
+                continue
+            rel = f"{vid}/{name}.{ext}"
+            files[rel] = text2
+            plan.append((rel, f"orig/{name}.{ext}", new_lines, vid))
+    with harness.temp_tree(files) as root:
+        harness.reset_globals()
+        cb = scan_path(Path(root))
+        got = {rel: oracle.as_tuples(e.measurements()) for rel, e in cb.files.items()}
+    for rel, orig, new_lines, vid in plan:
+        if orig not in got:
+            out.append(("file-missing-from-scan", {"language": lang, "ext": ext}, orig, f"{orig} not in the scan"))
+            continue
+        want = shifted(got[orig], new_lines)
+        if rel not in got:
+            out.append(("file-dropped-after-comment-insertion", {"language": lang, "ext": ext}, rel, f"{rel}: the commented copy is not reported at all ({orig} is)"))
+        elif got[rel] != want:
+            out.append(("measurement-changed", {"language": lang, "kind": "payload-comment", "what": "file-level"}, rel, f"{rel}: {got[rel][:2]} expected {want[:2]}"))
+    return len(plan), out
+
+
 def _block(block, agg):
+    if block[0] == "FILES":
+        _, lang, ext = block
+        n, viol = eval_files_on_disk(lang, ext)
+        agg.case({"file_level": lang, "ext": ext, "variants": n}, n > 0, f"file-level {n}", sample=False)
+        agg.transitions += 1
+        for k, sig, rel, d in viol:
+            agg.violation(k, sig, {"src": "file-level", "lang": lang, "ext": ext, "file": rel}, d)
+        return
     desc, modes, kind_ids = block
     run_file(desc, modes, agg, kind_ids)
 
 
 def replay(case):
+    if case.get("src") == "file-level":
+        _, viol = eval_files_on_disk(case["lang"], case["ext"])
+        return [{"kind": k, "sig": s, "detail": d} for k, s, rel, d in viol]
     fc = FileCtx(case["lang"], load_file(case))
     oc, v = fc.check([tuple(i) for i in case["inserts"]])
     return [{"kind": v[0], "sig": v[1], "detail": v[2]}] if v else []
@@ -258,4 +325,7 @@ def run(ctx: core.Ctx):
     ctx.rule = ("case = (file, insertion set): every single (safe boundary, kind); all kinds applied at every safe boundary at once; all pairs of single "
                 "insertions on generated programs. Non-trivial: the file has >= 1 function and the variant is token-safe. Outcome in {same, diff, "
                 "raised, not-token-safe}.")
+    # file level: every language under its usual extension, and the secondary extensions that map to a supported language
+    for lang, ext in [(l, canon.EXT[l]) for l in canon.LANGS] + [("C", "h"), ("C++", "hpp"), ("C++", "cc"), ("JavaScript", "mjs"), ("Python", "pyi")]:
+        blocks.append(("FILES", lang, ext))
     ctx.run_blocks(_block, blocks)
